@@ -952,6 +952,35 @@ impl Comp for SamComp {
     }
 }
 
+
+// ---------------------------------------------------------------------------------------------
+// W-TinyLFU built through the constructors that fix the key hasher (`new`, `with_sizes`, `builder()`): only the
+// configuration is observable here (the default key hasher is not known to the model)
+// ---------------------------------------------------------------------------------------------
+
+struct WtSizesComp {
+    c: WTinyLFUCache<u64, u64>,
+}
+impl Comp for WtSizesComp {
+    fn op(&mut self, op: &str, sa: &[&str]) -> Option<String> {
+        Some(match (op, sa.len()) {
+            ("len", 0) => format!("{}", self.c.len()),
+            ("cap", 0) => format!("{}", self.c.cap()),
+            ("isempty", 0) => format!("{}", self.c.is_empty()),
+            ("wcap", 0) => format!("{}", self.c.window_cache_cap()),
+            ("mcap", 0) => format!("{}", self.c.main_cache_cap()),
+            ("wlen", 0) => format!("{}", self.c.window_cache_len()),
+            ("mlen", 0) => format!("{}", self.c.main_cache_len()),
+            _ => return None,
+        })
+    }
+    fn dump(&self) -> String {
+        let (w, m, _) = self.c.verif_parts();
+        let (p, q) = m.verif_segments();
+        format!("W{{cap={}}} P{{cap={}}} Q{{cap={}}}", w.cap(), p.cap(), q.cap())
+    }
+}
+
 // ---------------------------------------------------------------------------------------------
 // driving one case
 // ---------------------------------------------------------------------------------------------
@@ -1364,6 +1393,37 @@ fn run_keyed<K: KeyKind>(case: &Case, out: &mut impl Write) {
                         .finalize::<TV>()
                         .map(|c| WtComp { c })
                         .map_err(|e| errname(&format!("{:?}", e)))
+                },
+                case,
+                out,
+            )
+        }
+        "wtsizes" => {
+            let (w, q, p, samples) = (
+                case.num("wcap") as usize,
+                case.num("qcap") as usize,
+                case.num("pcap") as usize,
+                case.num("samples") as usize,
+            );
+            let via = case.get("via").unwrap_or("withsizes").to_string();
+            drive(
+                || {
+                    let r = match via.as_str() {
+                        "builder" => WTinyLFUCache::<u64, u64>::builder()
+                            .set_probationary_cache_size(p)
+                            .set_samples(samples)
+                            .set_protected_cache_size(q)
+                            .set_window_cache_size(w)
+                            .finalize::<u64>(),
+                        "buildernew" => WTinyLFUCacheBuilder::<u64>::new(w, q, p, samples).finalize::<u64>(),
+                        "frombuilder" => {
+                            WTinyLFUCache::<u64, u64>::from_builder(WTinyLFUCacheBuilder::<u64>::new(w, q, p, samples))
+                        }
+                        // `new(size, samples)`: the header carries the sizes the documented split yields
+                        "new" => WTinyLFUCache::<u64, u64>::new(case.num("size") as usize, samples),
+                        _ => WTinyLFUCache::<u64, u64>::with_sizes(w, q, p, samples),
+                    };
+                    r.map(|c| WtSizesComp { c }).map_err(|e| errname(&format!("{:?}", e)))
                 },
                 case,
                 out,
